@@ -347,10 +347,12 @@ func (lg *ledger) key(v ssa.Value) string {
 		}
 	case *ssa.UnOp:
 		if x.Op == token.MUL {
-			if al, ok := x.X.(*ssa.Alloc); ok && singleStoreCell(al) {
-				k = "cell(" + al.Name() + fmt.Sprintf("@%p)", al)
+			if al, ok := x.X.(*ssa.Alloc); ok {
+				if singleStoreCell(al) {
+					k = "cell(" + al.Name() + fmt.Sprintf("@%p)", al)
+				}
 				if sv := cellValue(x); sv != nil {
-					k = lg.key(sv) // the variable is written once, before this load: it IS that value
+					k = lg.key(sv) // the value the variable holds at this load (the write that reaches it, or an equal earlier load)
 				}
 			}
 			if _, ok := x.X.(*ssa.FreeVar); ok {
@@ -530,12 +532,26 @@ func edgeFacts(from, to *ssa.BasicBlock) []edgeFact {
 
 // proveEdge: p holds when control moves along from -> to.
 func (lg *ledger) proveEdge(p pred, from, to *ssa.BasicBlock, ctx *proofCtx) (bool, string) {
-	for _, f := range edgeFacts(from, to) {
+	efs := edgeFacts(from, to)
+	for _, f := range efs {
 		if lg.implies(f, p) {
 			return true, "edge " + lg.condString(f)
 		}
 	}
-	return lg.proveIn(p, from, ctx)
+	if ok, why := lg.proveIn(p, from, ctx); ok {
+		return true, why
+	}
+	// what the edge's own condition says may be needed further down (ValueOf(v) is valid on the edge
+	// `v != nil`): prove at the source block with the edge's facts assumed (in a context of its own, so
+	// that nothing proven under the assumption is remembered without it)
+	if len(efs) > 0 && ctx.depth < 24 {
+		ctx2 := &proofCtx{visited: map[string]bool{}, done: map[string]string{}, failed: map[string]bool{}, nilPhis: ctx.nilPhis,
+			extra: append(append([]edgeFact(nil), ctx.extra...), efs...), depth: ctx.depth + 1}
+		if ok, why := lg.proveIn(p, from, ctx2); ok {
+			return true, why + " (on this edge)"
+		}
+	}
+	return false, ""
 }
 
 // reflectMethod: c is a call of reflect.Value.<name>; returns the receiver.
@@ -853,6 +869,18 @@ func (lg *ledger) prove(p pred, at *ssa.BasicBlock) (bool, string) {
 	return lg.proveIn(p, at, ctx)
 }
 
+// proveAssuming: prove with additional facts known to hold (the branch through which a function value reached a call).
+func (lg *ledger) proveAssuming(p pred, at *ssa.BasicBlock, assume []edgeFact) (bool, string) {
+	if len(assume) == 0 {
+		return lg.prove(p, at)
+	}
+	if ok, why := lg.prove(p, at); ok {
+		return true, why
+	}
+	ctx := &proofCtx{visited: map[string]bool{}, done: map[string]string{}, failed: map[string]bool{}, nilPhis: map[*ssa.Phi]bool{}, extra: assume}
+	return lg.proveIn(p, at, ctx)
+}
+
 func (lg *ledger) predKey(p pred, at *ssa.BasicBlock) string {
 	return fmt.Sprintf("%d|%s|%x|%s|%s|%d", p.kind, lg.key(p.v), p.kinds, lg.key(p.b), p.bKey, at.Index)
 }
@@ -976,7 +1004,7 @@ func (lg *ledger) byCalleeReturns(p pred, at *ssa.BasicBlock, ctx *proofCtx) str
 		if g := call.Call.StaticCallee(); g != nil {
 			gs = []*ssa.Function{g}
 		} else if !call.Call.IsInvoke() {
-			gs = possibleCallees(call.Call.Value, 0) // a function value that is one of a few known closures
+			gs = lg.w.calleesOfValue(call.Call.Value, 0) // a function value that is one of a few known functions
 		}
 		if len(gs) == 0 {
 			return ""
@@ -1369,43 +1397,8 @@ func (lg *ledger) byConstruction(p pred, at *ssa.BasicBlock, ctx *proofCtx) stri
 					}
 				}
 				// the function type is a parameter of a helper: every call site is under IsVariadic() of the argument
-				if prm, isP := throughCell(recv).(*ssa.Parameter); isP && prm.Parent() == lg.fn {
-					idx := -1
-					for i, q := range lg.fn.Params {
-						if q == prm {
-							idx = i
-						}
-					}
-					sites := lg.w.staticCallSites(lg.fn)
-					okAll := idx >= 0 && len(sites) > 0
-					for _, st := range sites {
-						if !okAll || idx >= len(st.Common().Args) {
-							okAll = false
-							break
-						}
-						l2 := newLedger(lg.w, st.Parent())
-						found := false
-						for _, f := range dominatingFacts(st.Block()) {
-							cond, truth := f.cond, f.truth
-							for {
-								u, ok := cond.(*ssa.UnOp)
-								if !ok || u.Op != token.NOT {
-									break
-								}
-								cond, truth = u.X, !truth
-							}
-							c2 := throughCell(cond)
-							if r2, _, ok := reflectTypeInvoke(c2, "IsVariadic"); ok && truth && l2.key(r2) == l2.key(st.Common().Args[idx]) {
-								found = true
-							}
-						}
-						if !found {
-							okAll = false
-						}
-					}
-					if okAll {
-						return "the last parameter of a variadic function: every call site of this helper is under IsVariadic() of the type it passes"
-					}
+				if prm, isP := throughCell(recv).(*ssa.Parameter); isP && lg.w.variadicParam(prm, 0) {
+					return "the last parameter of a variadic function: every call site of this helper is under IsVariadic() of the type it passes"
 				}
 			}
 		}
@@ -1606,21 +1599,22 @@ func (lg *ledger) byAllCallers(p pred, ctx *proofCtx) string {
 	if idx < 0 || ctx.depth > 20 {
 		return ""
 	}
-	sites := lg.w.staticCallSites(lg.fn)
-	if len(sites) == 0 {
+	// (calls by name, and calls of values that can only be this function: a method value, a callback)
+	sites, complete := lg.w.callSitesAll(lg.fn)
+	if len(sites) == 0 || !complete {
 		return ""
 	}
 	for _, s := range sites {
-		if idx >= len(s.Common().Args) {
+		if idx >= len(s.args) {
 			return ""
 		}
 		l2 := newLedger(lg.w, s.Parent())
 		q := p
-		q.v = s.Common().Args[idx]
+		q.v = s.args[idx]
 		if p.b != nil {
 			return "" // relational predicates are not transported across calls
 		}
-		if ok, _ := l2.prove(q, s.Block()); !ok {
+		if ok, _ := l2.proveAssuming(q, s.Block(), s.assume); !ok {
 			return ""
 		}
 	}
@@ -1690,6 +1684,12 @@ type diffC struct {
 
 // term renders an int-valued SSA value as (base key, constant offset).
 func (lg *ledger) term(v ssa.Value) (string, int64) {
+	// a variable kept in a cell (a closure captures it) is the value that reaches the load
+	if ld, ok := v.(*ssa.UnOp); ok && ld.Op == token.MUL {
+		if sv := cellValue(ld); sv != nil && sv != v {
+			return lg.term(sv)
+		}
+	}
 	switch x := v.(type) {
 	case *ssa.Const:
 		if x.Value != nil && x.Value.Kind() == constant.Int {
@@ -1817,6 +1817,15 @@ func (lg *ledger) boundFacts(b *ssa.BasicBlock) (out []diffC) {
 			out = append(out, diffC{"0", "Type.NumIn(" + lg.key(recv) + ")", -1})
 		}
 	}
+	// ... also for a function type that is a parameter (or a captured parameter of the enclosing function)
+	// every call site of which is under IsVariadic() of what it passes
+	for f := lg.fn; f != nil; f = f.Parent() {
+		for _, prm := range f.Params {
+			if namedIs(prm.Type(), "reflect", "Type") && lg.w.variadicParam(prm, 0) {
+				out = append(out, diffC{"0", "Type.NumIn(" + lg.key(prm) + ")", -1})
+			}
+		}
+	}
 	// results of a validating helper: `i, err := check(x, ...)` with err known to be nil here
 	// (or `i, ok := ...` with ok known true): what the helper guarantees about i on its successful returns
 	for _, f := range lg.domFacts(b) {
@@ -1874,35 +1883,19 @@ func (lg *ledger) boundFacts(b *ssa.BasicBlock) (out []diffC) {
 			if !isIntType(prm.Type()) {
 				continue
 			}
-			var sites []ssa.CallInstruction
-			sites = append(sites, lg.w.staticCallSites(lg.fn)...)
-			if len(sites) == 0 && lg.fn.Parent() != nil {
-				for _, bb := range lg.fn.Parent().Blocks {
-					for _, ins := range bb.Instrs {
-						c, ok := ins.(*ssa.Call)
-						if !ok || c.Call.IsInvoke() || c.Call.StaticCallee() != nil {
-							continue
-						}
-						for _, g := range possibleCallees(c.Call.Value, 0) {
-							if g == lg.fn {
-								sites = append(sites, c)
-							}
-						}
-					}
-				}
-			}
-			if len(sites) == 0 {
+			sites, complete := lg.w.callSitesAll(lg.fn)
+			if len(sites) == 0 || !complete {
 				continue
 			}
 			all := true
 			for _, st := range sites {
-				if i >= len(st.Common().Args) {
+				if i >= len(st.args) {
 					all = false
 					break
 				}
 				l2 := newLedger(lg.w, st.Parent())
 				l2.depth = lg.depth + 1
-				ab, ao := l2.term(st.Common().Args[i])
+				ab, ao := l2.term(st.args[i])
 				if !entails(l2.subFacts(l2.boundFacts(st.Block())), "0", ab, ao) {
 					all = false
 					break
@@ -2591,7 +2584,14 @@ func cellValue(ld *ssa.UnOp) ssa.Value {
 		if !singleStoreCell(al) {
 			// written several times: the write that reaches the place where the closure is made, provided
 			// no write can follow it once the closure exists
-			return reachingStore(al, mc, true)
+			if v := reachingStore(al, mc, true); v != nil {
+				return v
+			}
+			// or what the enclosing function itself last read from the variable before it made the closure
+			if rep := cellEpochLoad(al, mc, true); rep != nil {
+				return rep
+			}
+			return nil
 		}
 		for _, ref := range *al.Referrers() {
 			st, ok := ref.(*ssa.Store)
@@ -2619,7 +2619,15 @@ func cellValue(ld *ssa.UnOp) ssa.Value {
 		return nil
 	}
 	if !singleStoreCell(al) {
-		return reachingStore(al, ld, false)
+		if v := reachingStore(al, ld, false); v != nil {
+			return v
+		}
+		// several writes may reach the load (an if that re-assigns the variable): the load still equals an
+		// earlier load of the variable when no write can run between the two
+		if rep := cellEpochLoad(al, ld, false); rep != nil {
+			return rep
+		}
+		return nil
 	}
 	for _, ref := range *al.Referrers() {
 		st, ok := ref.(*ssa.Store)
@@ -2739,6 +2747,101 @@ func reachingStore(al *ssa.Alloc, at ssa.Instruction, noLater bool) ssa.Value {
 		}
 	}
 	return best.Val
+}
+
+// cellStores: the writes to the cell al by its own function, when nothing else can write it (its
+// address is not stored anywhere and the closures that capture it only read it).
+func cellStores(al *ssa.Alloc) ([]*ssa.Store, bool) {
+	if al.Referrers() == nil {
+		return nil, false
+	}
+	var stores []*ssa.Store
+	for _, ref := range *al.Referrers() {
+		switch x := ref.(type) {
+		case *ssa.Store:
+			if x.Addr != ssa.Value(al) {
+				return nil, false
+			}
+			stores = append(stores, x)
+		case *ssa.UnOp, *ssa.DebugRef:
+		case *ssa.MakeClosure:
+			fn, ok := x.Fn.(*ssa.Function)
+			if !ok {
+				return nil, false
+			}
+			for i, b := range x.Bindings {
+				if b != ssa.Value(al) || i >= len(fn.FreeVars) {
+					continue
+				}
+				for _, r2 := range *fn.FreeVars[i].Referrers() {
+					if st, ok := r2.(*ssa.Store); ok && st.Addr == ssa.Value(fn.FreeVars[i]) {
+						return nil, false
+					}
+					if _, ok := r2.(*ssa.MakeClosure); ok {
+						return nil, false
+					}
+				}
+			}
+		default:
+			return nil, false
+		}
+	}
+	return stores, true
+}
+
+// cellEpochLoad: the earliest load of the cell that is executed before at on every path and is
+// separated from at by no write to the cell (with noLater: and no write can follow at); the value
+// in the cell at `at` is the value that load read. nil when there is none (or only at itself).
+func cellEpochLoad(al *ssa.Alloc, at ssa.Instruction, noLater bool) *ssa.UnOp {
+	stores, ok := cellStores(al)
+	if !ok || at == nil || at.Block() == nil {
+		return nil
+	}
+	pos := func(ins ssa.Instruction) int {
+		for i, x := range ins.Block().Instrs {
+			if x == ins {
+				return i
+			}
+		}
+		return -1
+	}
+	before := func(a, b ssa.Instruction) bool {
+		if a.Block() == b.Block() {
+			return pos(a) < pos(b)
+		}
+		return a.Block().Dominates(b.Block())
+	}
+	mayReach := func(a, b ssa.Instruction) bool {
+		if a.Block() == b.Block() {
+			return pos(a) < pos(b) || blockReaches(a.Block(), a.Block(), true)
+		}
+		return blockReaches(a.Block(), b.Block(), true)
+	}
+	if noLater {
+		for _, st := range stores {
+			if mayReach(at, st) {
+				return nil
+			}
+		}
+	}
+	var best *ssa.UnOp
+	for _, ref := range *al.Referrers() {
+		ld, isLd := ref.(*ssa.UnOp)
+		if !isLd || ld.Op != token.MUL || ssa.Instruction(ld) == at || !before(ld, at) {
+			continue
+		}
+		clean := true
+		for _, st := range stores {
+			if mayReach(ld, st) && mayReach(st, at) {
+				clean = false
+				break
+			}
+		}
+		if clean && (best == nil || before(ld, best)) {
+			best = ld
+		}
+	}
+	return best
 }
 
 // closureBinding: the one place where the closure owning fv is made, and the cell bound to fv there.
@@ -2996,4 +3099,60 @@ func (w *World) kindPredicate(g *ssa.Function, i int) (whenTrue, whenFalse uint6
 	}
 	out.ok = out.t != all || out.f != all
 	return out.t, out.f, out.ok
+}
+
+// variadicParam: prm is a reflect.Type parameter and at every call site of its function (by name or
+// through a value of it; the set must be complete) IsVariadic() of the argument is known to be true.
+func (w *World) variadicParam(prm *ssa.Parameter, depth int) bool {
+	key := fmt.Sprintf("variadicParam|%p", prm)
+	if v, hit := w.predSubst.Load(key); hit {
+		return v.(bool)
+	}
+	res := false
+	defer func() { w.predSubst.Store(key, res) }()
+	fn := prm.Parent()
+	if fn == nil || depth > 3 || !namedIs(prm.Type(), "reflect", "Type") {
+		return false
+	}
+	idx := -1
+	for i, q := range fn.Params {
+		if q == prm {
+			idx = i
+		}
+	}
+	sites, complete := w.callSitesAll(fn)
+	if idx < 0 || !complete || len(sites) == 0 {
+		return false
+	}
+	for _, st := range sites {
+		if idx >= len(st.args) {
+			return false
+		}
+		l2 := newLedger(w, st.Parent())
+		arg := throughCell(st.args[idx])
+		found := false
+		for _, f := range append(append([]edgeFact(nil), dominatingFacts(st.Block())...), st.assume...) {
+			cond, truth := f.cond, f.truth
+			for {
+				u, ok := cond.(*ssa.UnOp)
+				if !ok || u.Op != token.NOT {
+					break
+				}
+				cond, truth = u.X, !truth
+			}
+			if r2, _, ok := reflectTypeInvoke(throughCell(cond), "IsVariadic"); ok && truth && l2.key(r2) == l2.key(arg) {
+				found = true
+			}
+		}
+		if !found {
+			if p2, isP := arg.(*ssa.Parameter); isP && w.variadicParam(p2, depth+1) {
+				found = true
+			}
+		}
+		if !found {
+			return false
+		}
+	}
+	res = true
+	return true
 }
